@@ -9,12 +9,12 @@ import (
 
 // Ctx is handed to each driver. R is nil in replay (registration-only) mode.
 type Ctx struct {
-	R        *explore.Report
-	Tier     string
-	Seed     int
-	Repo     string // path of the repository being checked (testdata lives there)
-	Scratch  string // scratch directory (removed by the caller)
-	SelfExe  string // path of the vmc binary (worker subprocesses)
+	R       *explore.Report
+	Tier    string
+	Seed    int
+	Repo    string // path of the repository being checked (testdata lives there)
+	Scratch string // scratch directory (removed by the caller)
+	SelfExe string // path of the vmc binary (worker subprocesses)
 }
 
 func (c *Ctx) Thorough() bool { return c.Tier == "thorough" }
